@@ -653,6 +653,60 @@ pub proof fn lemma_c11_reply(s: Raw, t: Raw, reply: Reply, ch: Seq<char>, d: Seq
     }
 }
 
+/// one balance-changing event of a history of the contract (everything else leaves channel balances alone)
+pub ghost enum Ev { Transfer(TransferMsg, Amount), Receive(IbcPacket, Seq<SubMsg<Empty>>), Failure(IbcPacket, Seq<SubMsg<Empty>>), Reply(Reply) }
+pub open spec fn ev_step(s: Raw, t: Raw, e: Ev) -> bool {
+    match e {
+        Ev::Transfer(tm, am) => step_transfer(s, t, tm, am),
+        Ev::Receive(p, m) => step_receive(s, t, p, m),
+        Ev::Failure(p, m) => step_failure(s, t, p, m),
+        Ev::Reply(r) => step_reply(s, t, r),
+    }
+}
+pub open spec fn ev_at(tr: Seq<Raw>, es: Seq<Ev>, k: int) -> bool { ev_step(tr[k], tr[k + 1], es[k]) }
+/// tokens escrowed (or given back by a failed payout) / tokens released by event e on (ch, d), in pre-state s
+pub open spec fn ev_in(s: Raw, e: Ev, ch: Seq<char>, d: Seq<char>) -> nat {
+    match e {
+        Ev::Transfer(tm, am) => if ch == tm.channel@ && d == denom_of(am) { amount_of(am)@ } else { 0 },
+        Ev::Reply(r) => if r.id == 1337 && r.result is Err && ch == reply_args_of(s)->Some_0.channel@ && d == reply_args_of(s)->Some_0.denom@ { reply_args_of(s)->Some_0.amount@ } else { 0 },
+        _ => 0,
+    }
+}
+pub open spec fn ev_out(e: Ev, ch: Seq<char>, d: Seq<char>) -> nat {
+    match e {
+        Ev::Receive(p, m) => { let q = Ics20Packet::unjson(p.data@)->Some_0;
+            if ch == p.dest.channel_id@ && d == voucher_local(q.denom@, p.src.port_id@, p.src.channel_id@)->Some_0 { q.amount@ } else { 0 } },
+        Ev::Failure(p, m) => { let q = Ics20Packet::unjson(p.data@)->Some_0; if ch == p.src.channel_id@ && d == q.denom@ { q.amount@ } else { 0 } },
+        _ => 0,
+    }
+}
+pub open spec fn in_upto(tr: Seq<Raw>, es: Seq<Ev>, ch: Seq<char>, d: Seq<char>, n: int) -> nat decreases n {
+    if n <= 0 { 0 } else { in_upto(tr, es, ch, d, n - 1) + ev_in(tr[n - 1], es[n - 1], ch, d) }
+}
+pub open spec fn out_upto(es: Seq<Ev>, ch: Seq<char>, d: Seq<char>, n: int) -> nat decreases n {
+    if n <= 0 { 0 } else { out_upto(es, ch, d, n - 1) + ev_out(es[n - 1], ch, d) }
+}
+// serves: C11 C12
+/// over every history of balance-changing events, per (channel, denomination): reported outstanding == initial + everything escrowed
+/// (or given back after a failed payout) - everything released; in particular the releases never exceed initial + escrowed
+pub proof fn lemma_c11_history(tr: Seq<Raw>, es: Seq<Ev>, ch: Seq<char>, d: Seq<char>, n: int)
+    requires tr.len() == es.len() + 1, 0 <= n <= es.len(), forall|k: int| 0 <= k < es.len() ==> #[trigger] ev_at(tr, es, k)
+    ensures outstanding(tr[n], ch, d) + out_upto(es, ch, d, n) == outstanding(tr[0], ch, d) + in_upto(tr, es, ch, d, n),
+        out_upto(es, ch, d, n) <= outstanding(tr[0], ch, d) + in_upto(tr, es, ch, d, n),
+    decreases n
+{
+    if n > 0 {
+        lemma_c11_history(tr, es, ch, d, n - 1);
+        assert(ev_at(tr, es, n - 1));
+        match es[n - 1] {
+            Ev::Transfer(tm, am) => lemma_c11_transfer(tr[n - 1], tr[n], tm, am, ch, d),
+            Ev::Receive(p, m) => lemma_c11_receive(tr[n - 1], tr[n], p, m, ch, d),
+            Ev::Failure(p, m) => lemma_c11_failure(tr[n - 1], tr[n], p, m, ch, d),
+            Ev::Reply(r) => lemma_c11_reply(tr[n - 1], tr[n], r, ch, d),
+        }
+    }
+}
+
 /// C18: the limit attached to a token: None = not allowed (no entry, no default)
 pub open spec fn looser_or_equal(a: Option<Option<u64>>, b: Option<Option<u64>>) -> bool {
     match (a, b) { (None, _) => true, (Some(x), Some(y)) => limit_loosened(x, y), (Some(_), None) => false }
